@@ -198,8 +198,19 @@ def body_chroma(case):
     sv = Sys(case["system"])
     rel = case["relative"]
     B = np.array([r["b"] for r in case["rows"]], dtype=float)
+    readapted = int(abs(float(B.sum())) * 1e6) % 3 == 0
     with calling("ReceptorEstimator.in_hull(normalized=True)"):
         est = sv.make_estimator()
+        if readapted:
+            # the same registered state reached through another one: the estimator first answers the query under a different
+            # adaptation / baseline, which are then registered back (added after seeded change S-C03-11: stale chromatic hull)
+            k_now = 1.0 if sv.K_raw is None else (sv.K_raw if np.ndim(sv.K_raw) == 0 else np.asarray(sv.K_raw, dtype=float))
+            b_now = 0.0 if sv.base_raw is None else (sv.base_raw if np.ndim(sv.base_raw) == 0 else np.asarray(sv.base_raw, dtype=float))
+            est.register_adaptation(0.5 + np.arange(sv.m, dtype=float))
+            est.register_baseline(1.0 + np.arange(sv.m, dtype=float)[::-1])
+            est.in_hull(B, relative=rel, normalized=True)
+            est.register_adaptation(k_now)
+            est.register_baseline(b_now)
         got = np.asarray(est.in_hull(B, relative=rel, normalized=True))
     check(got.shape == (B.shape[0],), "chroma:shape", f"{got.shape}")
     # gamut vertices by own enumeration
@@ -209,7 +220,7 @@ def body_chroma(case):
     P = V @ Ap.T + basep
     P = P[np.abs(P).sum(axis=1) > 0]
     Ph = P / np.abs(P).sum(axis=1, keepdims=True)
-    labs = sv.labels() + ["relative" if rel else "absolute"]
+    labs = sv.labels() + ["relative" if rel else "absolute"] + (["re-adapted"] if readapted else [])
     if sv.m == 2:
         labs.append("nt:dichromat")
     # a chromatic gamut spanned by fewer than m sources is flat inside the (m-1)-simplex: "strictly inside" is then only
